@@ -388,14 +388,16 @@ Advance ==
 \* on those connections fail with ErrShutdown at once (their callers mark the connection dead and close
 \* it); pooled connections without calls stay in the pool, broken, until a call is refused on them.
 \* the connections in S end (their client's reader sees EOF)
+\* (abandoned calls on them are swept with everything else in the table: nobody waits for them any more)
 Break(S) ==
     LET hit == {k \in Callers : cst[k] = "inflight" /\ cconn[k] \in S}
+        gone == {k \in Callers : cst[k] = "abandoned" /\ cconn[k] \in S}
         hc == {cconn[k] : k \in hit} IN
        /\ broken' = [c \in ConnIds |-> broken[c] \/ c \in S]
-       /\ cst' = [k \in Callers |-> IF k \in hit THEN "idle" ELSE cst[k]]
-       /\ cconn' = [k \in Callers |-> IF k \in hit THEN NoConn ELSE cconn[k]]
+       /\ cst' = [k \in Callers |-> IF k \in hit \cup gone THEN "idle" ELSE cst[k]]
+       /\ cconn' = [k \in Callers |-> IF k \in hit \cup gone THEN NoConn ELSE cconn[k]]
        /\ failsSince' = [k \in Callers |-> IF k \in hit THEN failsSince[k] + 1 ELSE failsSince[k]]
-       /\ busy' = [c \in ConnIds |-> IF c \in hc THEN 0 ELSE busy[c]]
+       /\ busy' = [c \in ConnIds |-> IF c \in S THEN 0 ELSE busy[c]]
        /\ alive' = [c \in ConnIds |-> IF c \in hc THEN FALSE ELSE alive[c]]
        /\ open' = [c \in ConnIds |-> IF c \in hc THEN FALSE ELSE open[c]]
        /\ last' = [c \in ConnIds |-> IF c \in hc THEN tnow ELSE last[c]]
